@@ -1595,6 +1595,24 @@ variant('b-setup-protocol-error-passed-through', ['C16'], RB,
         "        except Exception as exception:\n            logger().error('%s: Setup error', self._log_identifier(), exc_info=True)",
         "        except RSocketProtocolError:\n            raise\n        except Exception as exception:\n            logger().error('%s: Setup error', self._log_identifier(), exc_info=True)",
         ('C16.d', 'on_setup raising'))
+variant('b-rx-publisher-factory-memoised', ['C20', 'C06'], 'rsocket/reactivex/back_pressure_publisher.py',
+        "def observable_to_publisher(", "@functools.lru_cache(maxsize=128)\ndef observable_to_publisher(",
+        ('C20.k', 'observable_to_publisher'))
+variant('b-receiver-writes-error-reply-itself', ['C05'], RB,
+        "                    logger().error('%s: Protocol error %s', self._log_identifier(), str(exception))\n                    self.send_error(frame.stream_id, exception)",
+        "                    logger().error('%s: Protocol error %s', self._log_identifier(), str(exception))\n                    await transport.send_frame(exception_to_error_frame(frame.stream_id, exception))",
+        ('C05.g', 'only the sender task writes'))
+variant('b-frame-length-kept-from-first-encode', ['C02'], F,
+        "        self.length = self.compute_frame_length(middle)\n",
+        "        if not self.length:\n            self.length = self.compute_frame_length(middle)\n",
+        ('C02.e', 'length recomputed on every encode'))
+variant('b-generator-failure-waits-for-the-queue', ['C07', 'C08'], SFG,
+        "            self._subscriber.on_error(exception)\n            self._cancel_feeders()",
+        "            self._subscriber.on_error(exception)\n            await self._queue.join()\n            self._cancel_feeders()",
+        ('C07.e', 'nothing is delivered after the failure is signalled'))
+variant('b-empty-stream-completes-at-subscribe', ['C10', 'C06'], 'rsocket/streams/empty_stream.py',
+        "    def request(self, n: int):", "    def subscribe(self, subscriber):\n        super().subscribe(subscriber)\n        self._subscriber.on_complete()\n\n    def request(self, n: int):",
+        ('C06.e', 'EmptyStream'))
 variant('b-send-error-noop', ['C12'], RB,
         "        self.send_frame(exception_to_error_frame(stream_id, exception))",
         "        logger().error('error on stream %s: %s', stream_id, exception)", ('C12.b', 'RSocketBase.send_error'))
